@@ -92,10 +92,8 @@ def mutator_jobs(prop, tier):
                 # embedded mode: the N modelled slots (a link-closed component together with the whole free list) at symbolic positions
                 # of an arena of symbolic length <= 2^17 whose other slots are live nodes that no link leads to
                 for N in ((2, 3) if tier == 'quick' else (2, 3, 4)):
-                    if N == 4 and op == 'remove_subtree':
-                        for x in range(1, 5): jobs.append({'kind': 'mutator', 'op': op, 'N': N, 'cfg': cfg, 'feat': 'std', 'props': [prop], 'fix_x': x, 'embedded': True})
-                    else:
-                        jobs.append({'kind': 'mutator', 'op': op, 'N': N, 'cfg': cfg, 'feat': 'std', 'props': [prop], 'embedded': True})
+                    if N == 4 and op == 'remove_subtree': continue       # measured: 40-70 min for the partition x = 1; N <= 3 only
+                    jobs.append({'kind': 'mutator', 'op': op, 'N': N, 'cfg': cfg, 'feat': 'std', 'props': [prop], 'embedded': True})
             if tier == 'thorough' and op in CHECKED and cfg == 'dev':
                 # N = 5 partitioned by the slot numbers of the two arguments (the union of the 25 sub-jobs is the same claim)
                 N = 5
